@@ -3,6 +3,7 @@ package props
 import (
 	"fmt"
 	"net/http"
+	"net/url"
 	"os"
 	"reflect"
 	"strings"
@@ -221,7 +222,11 @@ func genC06(rt *rapid.T, cfg model.GenCfg) c06Case {
 				sb.WriteString(rapid.SampledFrom(frag).Draw(rt, "kf"))
 			}
 			sb.WriteByte('=')
-			sb.WriteString(rapid.SampledFrom(frag).Draw(rt, "vf"))
+			if rapid.Bool().Draw(rt, "hostile") {
+				sb.WriteString(url.QueryEscape(rapid.SampledFrom(hostileStrings).Draw(rt, "vh")))
+			} else {
+				sb.WriteString(rapid.SampledFrom(frag).Draw(rt, "vf"))
+			}
 		}
 		c.Text = sb.String()
 	case "env":
@@ -229,7 +234,7 @@ func genC06(rt *rapid.T, cfg model.GenCfg) c06Case {
 		root.Walk(func(n *model.Node) {
 			for _, f := range n.Fields {
 				if rapid.Bool().Draw(rt, "setenv") {
-					parts = append(parts, f.Key+"="+rapid.SampledFrom([]string{"", " ", "1", "abc", "true", "\xff", "  7  ", "2024-01-01T00:00:00Z", "1e999", "a,b"}).Draw(rt, "ev"))
+					parts = append(parts, f.Key+"="+rapid.SampledFrom(hostileStrings).Draw(rt, "ev"))
 				}
 			}
 		})
@@ -237,6 +242,22 @@ func genC06(rt *rapid.T, cfg model.GenCfg) c06Case {
 	}
 	return c
 }
+
+// hostileStrings: short string values that text front ends tend to treat specially: every ASCII punctuation
+// character on its own (a lone quote, a lone bracket ...), unbalanced and balanced pairs, escapes, blanks, numbers
+// at the edge of their syntax.
+var hostileStrings = func() []string {
+	out := []string{"", " ", "1", "abc", "true", "\xff", "  7  ", "2024-01-01T00:00:00Z", "1e999", "a,b",
+		`""`, `''`, `"x`, `x"`, `'x`, `"x"`, `'x'`, `" "`, `"'`, "``", `\\`, `\\"`, `\\n`, "$", "${", "${X}", "$X", "$$", "%", "%s", "%!d(string=x)",
+		"[", "]", "[]", "[1,2]", "{", "}", "{}", `{"a":1}`, "a=b", "=", "==", "a b", "\t", "\n", "a\nb", "-", "--", "+", "+1", "-0", ".", "..", "0x", "0x1", "1_0", "é", "日本", "\u202e",
+		"null", "nil", "NaN", "Inf", "on", "off", "yes", "T", "F", "#", "#x", ";", "a;b", "&", "a&b", "?", "*", "~", "^", "|", "<", ">", "<x>", "(", ")", "()", "!", "@", "a@b.c", ":", "::", "/", "//", "a/b"}
+	for c := 33; c < 127; c++ {
+		if !(c >= '0' && c <= '9') && !(c >= 'a' && c <= 'z') && !(c >= 'A' && c <= 'Z') {
+			out = append(out, string(rune(c)), " "+string(rune(c))+" ", string(rune(c))+string(rune(c)))
+		}
+	}
+	return out
+}()
 
 func replaceJSONLeaves(rt *rapid.T, doc string) string {
 	repl := []string{`null`, `{}`, `[]`, `[[]]`, `1e308`, `-1`, `"x"`, `true`, `{"name":{}}`, `[null]`, `0.5`, `""`}
